@@ -242,6 +242,14 @@ type commitmentsVerificationState struct {
 	previousPhaseCommitmentsMessages []*MemberCommitmentsMessage
 
 	phaseAccusationsMessages []*SecretSharesAccusationsMessage
+
+	// Members accused (and thus disqualified) by this member during the
+	// verification performed in this state. Other members learn about that
+	// disqualification only when the accusations are resolved in the next
+	// phase, so accusations raised by those members in this phase must still
+	// be taken into account. Otherwise, this member could miss a justified
+	// accusation all other members act on.
+	accusedMembers map[group.MemberIndex]bool
 }
 
 func (cvs *commitmentsVerificationState) DelayBlocks() uint64 {
@@ -265,6 +273,11 @@ func (cvs *commitmentsVerificationState) Initiate(ctx context.Context) error {
 		return err
 	}
 
+	cvs.accusedMembers = make(map[group.MemberIndex]bool)
+	for accusedMemberID := range accusationsMsg.accusedMembersKeys {
+		cvs.accusedMembers[accusedMemberID] = true
+	}
+
 	if err := cvs.channel.Send(ctx, accusationsMsg); err != nil {
 		return err
 	}
@@ -275,10 +288,14 @@ func (cvs *commitmentsVerificationState) Initiate(ctx context.Context) error {
 func (cvs *commitmentsVerificationState) Receive(msg net.Message) error {
 	switch phaseMessage := msg.Payload().(type) {
 	case *SecretSharesAccusationsMessage:
-		if cvs.member.shouldAcceptMessage(
+		if (cvs.member.shouldAcceptMessage(
 			phaseMessage.SenderID(),
 			msg.SenderPublicKey(),
-		) && cvs.member.sessionID == phaseMessage.sessionID {
+		) || cvs.member.shouldAcceptMessageFromAccused(
+			phaseMessage.SenderID(),
+			msg.SenderPublicKey(),
+			cvs.accusedMembers,
+		)) && cvs.member.sessionID == phaseMessage.sessionID {
 			cvs.phaseAccusationsMessages = append(
 				cvs.phaseAccusationsMessages,
 				phaseMessage,
@@ -456,6 +473,10 @@ type pointsValidationState struct {
 	previousPhaseMessages []*MemberPublicKeySharePointsMessage
 
 	phaseMessages []*PointsAccusationsMessage
+
+	// Members accused (and thus disqualified) by this member during the
+	// validation performed in this state. See commitmentsVerificationState.
+	accusedMembers map[group.MemberIndex]bool
 }
 
 func (pvs *pointsValidationState) DelayBlocks() uint64 {
@@ -475,6 +496,11 @@ func (pvs *pointsValidationState) Initiate(ctx context.Context) error {
 		return err
 	}
 
+	pvs.accusedMembers = make(map[group.MemberIndex]bool)
+	for accusedMemberID := range accusationMsg.accusedMembersKeys {
+		pvs.accusedMembers[accusedMemberID] = true
+	}
+
 	if err := pvs.channel.Send(ctx, accusationMsg); err != nil {
 		return err
 	}
@@ -485,10 +511,14 @@ func (pvs *pointsValidationState) Initiate(ctx context.Context) error {
 func (pvs *pointsValidationState) Receive(msg net.Message) error {
 	switch phaseMessage := msg.Payload().(type) {
 	case *PointsAccusationsMessage:
-		if pvs.member.shouldAcceptMessage(
+		if (pvs.member.shouldAcceptMessage(
 			phaseMessage.SenderID(),
 			msg.SenderPublicKey(),
-		) && pvs.member.sessionID == phaseMessage.sessionID {
+		) || pvs.member.shouldAcceptMessageFromAccused(
+			phaseMessage.SenderID(),
+			msg.SenderPublicKey(),
+			pvs.accusedMembers,
+		)) && pvs.member.sessionID == phaseMessage.sessionID {
 			pvs.phaseMessages = append(pvs.phaseMessages, phaseMessage)
 		}
 	}
